@@ -112,7 +112,13 @@ func (w *World) canaryPhase() {
 			if cw.tw == nil {
 				continue
 			}
-			for _, kind := range []string{"conf", "csv"} {
+			kinds := []string{"conf", "csv"}
+			if cw.chain == "btc" && n.lnd != nil {
+				// lnd.TxWatcher waits for its own fixed csv (144 confirmations, then blocks up
+				// to 1008), whatever the registration says: only the confirmation canary applies
+				kinds = []string{"conf"}
+			}
+			for _, kind := range kinds {
 				k++
 				id := fmt.Sprintf("%s%02d%s", canaryPrefix, k, strings.Repeat("0", 54))
 				script := append([]byte{0x00, 0x20}, sha256sum(fmt.Sprintf("canary-%d-%d", w.Plan.Seed, k))...)
@@ -170,6 +176,9 @@ func (w *World) canaryPhase() {
 			backend := "rpc"
 			if c.chain == "lbtc" && w.Plan.Scn.LiquidBackend[c.node] == "lwk" {
 				backend = "electrum"
+			}
+			if c.chain == "btc" && w.Plan.Scn.Adapter[c.node] == "lnd" {
+				backend = "lnd"
 			}
 			w.Violate("C18", "chain-notifications-no-longer-handled:"+backend+":"+c.kind, "node %d: a transaction registered with its %s %s watcher at the end of the run (%s watch) was never reported although 8 blocks were mined afterwards with the node idle: the watcher's block/notification handling is stuck", c.node, c.chain, backend, c.kind)
 		}
